@@ -133,6 +133,51 @@ func VT_C02_TwoAdds() {
 	vt.Reach("done")
 }
 
+// Two concurrent delta upserts (Update + create-if-absent, no expect-absent) of one id, which may or may not exist yet:
+// every write that reports success takes effect exactly once.
+func VT_C02_TwoUpserts() {
+	id := "0000000000000002"
+	init := int64(0)
+	var opts []Option
+	exists := vt.Choose("exists", 2) == 1
+	if exists {
+		init = vt.Int64("init")
+		opts = append(opts, WithInitialRecord(id, &T2{DefaultInt64: init}))
+	}
+	c := NewCollection(opts...)
+	deltas := []int64{vt.Int64("w0.delta"), vt.Int64("w1.delta")}
+	errs := make([]error, 2)
+	var wg sync.WaitGroup
+	for i := 0; i < 2; i++ {
+		i := i
+		wg.Add(1)
+		go func() {
+			defer wg.Done()
+			d := deltas[i]
+			_, errs[i] = c.Update(id, &T2{}, WithCreateIfAbsent(), InterceptBefore(func(old, value proto.Message) {
+				value.(*T2).DefaultInt64 = old.(*T2).GetDefaultInt64() + d
+			}))
+		}()
+	}
+	wg.Wait()
+	sum := init
+	for i := 0; i < 2; i++ {
+		if errs[i] == nil {
+			sum += deltas[i]
+		} else {
+			vt.Assert(vtLoserCode(errs[i]), "loser-reports-a-race-status")
+		}
+	}
+	got, ok := c.Get(id)
+	if errs[0] == nil || errs[1] == nil || exists {
+		vt.Assert(ok, "upserted-id-present")
+	}
+	if ok {
+		vt.Assert(got.(*T2).DefaultInt64 == sum, "no-lost-upsert-increment")
+	}
+	vt.Reach("done")
+}
+
 // A Delete with an expected value races an Update: the Delete never removes a version its precondition did not see.
 func VT_C02_DeleteVsUpdate() {
 	v0, v1 := vt.Int32("v0"), vt.Int32("v1")
